@@ -135,11 +135,11 @@ VBot(k, term) == IF k \in term THEN 0
                           vs == {Plus(e.cost, VBot(e.to, term)) : e \in outs} \ {NegInf}
                       IN IF vs = {} THEN NegInf ELSE Max(vs)
 Sol(k) == IF k = <<>> THEN [some |-> FALSE, decs |-> <<>>] ELSE [some |-> TRUE, decs |-> SetToSeq(RootPath \cup PathOf(k))]
+\* max_by_key over a hash map: among equally good terminal nodes any one may be the best node (and the best exact node)
+ArgMax(S) == IF S = {} THEN {<<>>} ELSE {k \in S : \A j \in S : Val(j) <= Val(k)}
 Finalize == /\ pc = "fin"
-            /\ LET term == nextL
-                   bestN == IF term = {} THEN <<>> ELSE CHOOSE k \in term : \A j \in term : Val(j) <= Val(k)
-                   exT == {k \in term : Exact(k)}
-                   bestE0 == IF exT = {} THEN <<>> ELSE CHOOSE k \in exT : \A j \in exT : Val(j) <= Val(k)
+            /\ \E bestN \in ArgMax(nextL), bestE0 \in ArgMax({k \in nextL : Exact(k)}) :
+               LET term == nextL
                    isEx == lel = 0
                    hebp == inp.type = "relaxed" /\ (bestN = <<>> \/ ExactBestPath(bestN))
                    bestE == IF hebp THEN bestN ELSE bestE0
